@@ -27,7 +27,7 @@ def run(ctx):
         "stacks_without_golden_file": tg.get("stacks_without_golden_file", 0), "catalogue_stacks": len(stacks),
         "samples": ["strided_array (float) -> linear_strided_array (double)", "golden/" + (sorted(os.listdir(GOLD))[0] if ngold else "(none)")],
         "rule": "(a) every ordered pair of catalogue stacks whose on-disk footprint (sequence of tags, configuration sizes, M) is identical and which therefore differ only in footprint-free layers (interpolator, its coordinate precision, shuffle/cast/dereference) "
-                "and/or the float width of the array: the writer's dump of a finite-value alphabet (exact ties between adjacent floats, one double-ulp either side, float-subnormal range, +-FLT_MAX and values rounding to it) x rotations is loaded by the reader; "
+                "and/or the float width of the array: the writer's dump of a finite-value alphabet (exact ties between adjacent floats, one double-ulp either side, float-subnormal range, +-FLT_MAX and values rounding to it) x rotations (plus the several-KiB, 1-cell and tight-storage variants of the writer's stack) is loaded by the reader; "
                 "oracle on the two dumps dissected by the E7 automaton: configuration blobs byte-identical, count equal, scalars bit-identical (same width), exactly equal (widening) or equal to a software round-to-nearest-even narrowing; "
                 "(b) committed golden files (written by the pinned revision + its fix: commits, recipe = catalogue stack + configuration variant 0 + finite alphabet): each loads, re-dumps to the same bytes, is accepted by E7, and the field rebuilt from the recipe "
                 "dumps to exactly the golden bytes; (c) grammar conformance of every stream is part of C06; states = compatible pairs + golden files",
